@@ -189,7 +189,7 @@ def files(ctx: Ctx):
             a = annot.get(t['seq_id'])
             if a and ctx.rng.random() < 0.7:
                 # region 2 at the targeton edge, starting or ending mid-codon: the codon is completed from outside the targeton
-                lo = ctx.rng.randint(a[3], max(a[3], a[4] - 12))
+                lo = ctx.rng.randint(max(2, a[3]), max(2, a[3], a[4] - 12))
                 hi = min(a[4], lo + ctx.rng.randint(1, 14))
                 t['r2_start'], t['r2_end'] = lo, hi
                 t['ref_start'] = lo if ctx.rng.random() < 0.6 else max(1, lo - ctx.rng.randint(1, 9))
